@@ -985,7 +985,7 @@ def doc_attr(rng, tag):
 def doc_text(rng):
     return rng.choice(["text", " ", "a b", "Hello, world.", "\n", "a &lt; b", "x &amp; y", "&nbsp;", "&#65;&#x42;", "1 > 0",
                        "\"q\" 'q'", "été", "&copy; 2024", "a & b", "5 < 6", "tal:content=\"x\"", "&amp;lt;",
-                       "&quot;", "&unknownentity;", "50% &", "$x ${y}", "a\tb", "&#0;x"[4:]])
+                       "&quot;", "&unknownentity;", "50% &", "$x ${y}", "a\tb", "&#0;x"[4:], "Gr\u00fc\u00df \u2713", "\U0001F600"])
 
 
 def gen_doc_nodes(rng, depth, maxdepth, cdata=True):
@@ -995,7 +995,7 @@ def gen_doc_nodes(rng, depth, maxdepth, cdata=True):
         if r < 0.3 or depth >= maxdepth:
             out.append(doc_text(rng))
         elif r < 0.36:
-            out.append(rng.choice(["<!-- c -->", "<!--a<b>&amp;-->", "<!---->", "<!-- tal:content -->"]))
+            out.append(rng.choice(["<!-- c -->", "<!--a<b>&amp;-->", "<!---->", "<!-- tal:content -->", "<!-- \u00e9t\u00e9 \u00fc \u2713 -->"]))
         elif r < 0.40 and depth == 0:
             out.append(rng.choice(["<!DOCTYPE html>", '<!DOCTYPE HTML PUBLIC "-//W3C//DTD HTML 4.01//EN">', "<?php x ?>"]))
         elif r < 0.50:
@@ -1007,7 +1007,8 @@ def gen_doc_nodes(rng, depth, maxdepth, cdata=True):
         elif cdata and r < 0.55:
             tag = rng.choice(["script", "style"])
             body = rng.choice(["var a = 1;", "if (a < b && c > d) { x(); }", "p > a { color: red }", "", "a && b",
-                               "document.write(\"<b>\");", "x = '&amp;';", "/* c */"])
+                               "document.write(\"<b>\");", "x = '&amp;';", "/* c */",
+                               "s = 'Gr\u00fc\u00df Gott';", "p:before { content: '\u00e9 \u2192 \u2713' }", "var \u03c0 = 3; // \U0001F600 &#252;"])
             out.append("<%s>%s</%s>" % (tag, body, tag))
         else:
             tag = rng.choice(DOC_TAGS)
